@@ -93,6 +93,20 @@ def main():
     t.append(dict(ev[j], out=ev[j]["out"] + 100000, case="tampered"))
     expect("C20: same key, other output", revalidate(chk, "Trace_Session", t, "st-c20")[0], {"same-key-same-output"})
 
+    # ---- the pipeline model: one field of a recorded expansion's shape, or of its abstract input, changed
+    ev = need_trace("C02", "trace-Trace_Expand-suite.ndjson")
+    base = [e for e in ev if e["inp"]["target"] == "fn" and len(e["obs"]) == 3 and "=>fn(self," in e["obs"][2]][:3] + [e for e in ev if e["inp"]["target"] == "trait"][:2]
+    _, d0 = vf.validate(chk, "Trace_Expand", base, name="st-exp-clean")
+    expect("expand: unmodified suite records conform", {"conform"} if not d0 else {"drift"}, {"conform"})
+    t = copy.deepcopy(base)
+    t[0]["obs"][2] = t[0]["obs"][2].replace("=>fn(self,", "=>fn(-,")        # the delegating call no longer passes self
+    _, d1 = vf.validate(chk, "Trace_Expand", t, name="st-exp-call")
+    expect("expand: delegating call shape changed", {d["case"] for d in d1}, {t[0]["case"]})
+    t = copy.deepcopy(base)
+    t[3]["inp"]["tr"]["methods"][0]["async"] = not t[3]["inp"]["tr"]["methods"][0]["async"]   # the model is told another input
+    _, d2 = vf.validate(chk, "Trace_Expand", t, name="st-exp-in")
+    expect("expand: abstract input changed (asyncness of a trait method)", {d["case"] for d in d2}, {t[3]["case"]})
+
     # ---- remove the hook: no record must be a tool error
     crate = vf.Crate(os.path.join(chk.work, "nohook"), "nohook")
     crate.add_case("000000", "#[::entrait::entrait(pub T)]\nfn f<D>(deps: &D) {}\n")
